@@ -160,7 +160,7 @@ theorem C05_no_false_alarm_int (S T : IntTy) (hS : S ∈ IntTy.all) (hT : T ∈ 
   unfold lossyTII lossyOf
   rw [htr, hb, hbf]
 
-/-! ### The checkers' own evaluation (finding F11) -/
+/-! ### The checkers' own evaluation (finding C05-UB) -/
 
 /-- Full statement: the `<T>` checkers never evaluate anything undefined.  FALSE on the code:
 `will_conversion_truncate<T>` evaluates `coerce_in` on the common-type value without having checked
@@ -474,7 +474,7 @@ theorem C05_float_narrowing_sound (S D : FltTy)
     obtain ⟨r, hr⟩ := rne_finite D h1 h2 h3 q ho.1 ho.2
     exact Or.inr ⟨q, r, rfl, hr⟩
 
-/-! ## Floating common type: the scaling step itself (finding F12) -/
+/-! ## Floating common type: the scaling step itself (finding C05-FOVF) -/
 
 /-- Full statement: a finite floating input that is not reported lossy is scaled to a finite value
 ("every … scaling step is … in range").  FALSE on the code: the overflow check compares `x` against
